@@ -1,0 +1,24 @@
+//go:build verif
+// +build verif
+
+package app
+
+import (
+	"net/http"
+
+	genericapiserver "k8s.io/apiserver/pkg/server"
+
+	"github.com/kubewharf/kubegateway/pkg/clusters"
+)
+
+// Verification hooks (build tag "verif"): thin exports only, no behaviour.
+
+// VerifBuildProxyHandlerChain builds the proxy handler chain exactly as
+// CreateProxyConfig wires it (buildProxyHandlerChainFunc), for a given
+// cluster manager and generic server config.
+func VerifBuildProxyHandlerChain(apiHandler http.Handler, c *genericapiserver.Config, clusterManager clusters.Manager, enableAccessLog bool) http.Handler {
+	return buildProxyHandlerChainFunc(&proxyHandlerOptions{
+		clusterManager:  clusterManager,
+		enableAccessLog: enableAccessLog,
+	})(apiHandler, c)
+}
